@@ -36,6 +36,10 @@ type verifC07_iscc struct {
 
 func (c *verifC07_iscc) Get(ctx context.Context, d digest.Digest) buffer.Buffer {
 	v, ok := c.stored[d.GetHashString()]
+	if plan, _ := ctx.Value(verifC07_planKey{}).(*verifC07_plan); plan != nil && plan.readFirst != nil {
+		close(plan.readFirst)
+		plan.readFirst = nil
+	}
 	// (what the cache returns may be stale if a handle for the digest is registered
 	// while this read is in progress; what matters is what a client is handed,
 	// which is asserted where Get returns)
@@ -56,6 +60,11 @@ func (c *verifC07_iscc) Put(ctx context.Context, d digest.Digest, b buffer.Buffe
 	k := 0
 	if d.GetHashString() == verifC07_h2 {
 		k = 1
+	}
+	if plan != nil && plan.waitForRead != nil {
+		// this request also reads the message it was asked for: the read is
+		// issued first (fixed order, so that a native replay cannot diverge)
+		<-plan.waitForRead
 	}
 	c.inFlight++
 	if plan != nil && plan.overlap[k] && c.budget > 0 {
@@ -85,6 +94,11 @@ func (c *verifC07_iscc) Put(ctx context.Context, d digest.Digest, b buffer.Buffe
 type verifC07_plan struct {
 	overlap [2]bool // another request arrives during the write of d1 / d2
 	fail    [2]bool // the write of d1 / d2 fails
+	// set when the request will read the stored message (no handle is registered
+	// for the digest it asks for) and the rig wants that read to happen before
+	// the request's cache writes
+	readFirst   chan struct{}
+	waitForRead <-chan struct{}
 }
 
 type verifC07_planKey struct{}
@@ -144,8 +158,12 @@ func verifC07_mutableProtoStore(three bool) {
 	iscc.latest = &counter
 	failures := 0
 
-	newCtx := func() context.Context {
+	newCtx := func(requested digest.Digest) context.Context {
 		pl := &verifC07_plan{}
+		if _, registered := ss.handles[requested]; three && !registered {
+			ch := make(chan struct{})
+			pl.readFirst, pl.waitForRead = ch, ch
+		}
 		for k, dg := range []digest.Digest{d1, d2} {
 			// only a handle that is queued right now can be written by this request
 			if h, ok := ss.handles[dg]; !ok || h.handlesToWriteIndex < 0 {
@@ -157,7 +175,7 @@ func verifC07_mutableProtoStore(three bool) {
 		return verifC07_ctx{Context: ctx, plan: pl}
 	}
 	update := func() {
-		h, err := ss.Get(newCtx(), d1)
+		h, err := ss.Get(newCtx(d1), d1)
 		if err != nil {
 			failures++
 			return
@@ -173,7 +191,7 @@ func verifC07_mutableProtoStore(three bool) {
 	var counter2 int64
 	iscc.latest2 = &counter2
 	read := func() {
-		h, err := ss.Get(newCtx(), d2)
+		h, err := ss.Get(newCtx(d2), d2)
 		if err != nil {
 			failures++
 			return
